@@ -339,6 +339,9 @@ fn type_case(types: &[TextType], headers: &[String], c: &TypeCase, acc: &mut Acc
     }
     if let Some(sp) = &t.serde_parse {
         let via = sp(&s);
+        if let Err(e) = &via {
+            ensure!(!e.starts_with("SERDE-ROUTES-DISAGREE"), format!("C09/{name}/{kind}/serde-routes-disagree"), "string {s:?}: deserialising it as a borrowed, transient, owned and streamed string does not give the same result: {e}");
+        }
         ensure!(
             via.is_ok() == lib.is_ok(),
             format!("C09/{name}/{kind}/serde-deserialise-differs"),
@@ -475,7 +478,7 @@ pub fn def() -> PropertyDef {
     PropertyDef {
         id: "C09",
         level: "exploration",
-        rule: "(1) exhaustive: every ASCII string of length <= 3 and every length-4 string over the 64-symbol alphabet plus 10 (quick) / 16 (thorough) hostile symbols ('=', '+', '/', '.', whitespace, multi-byte UTF-8, neighbours of the alphabet ranges), as the final base64 block after 0, 1 and 2 full blocks, decoded through KeyText: accept iff the strict reference decoder accepts (unpadded URL-safe alphabet, length != 1 mod 4, canonical trailing bits), same bytes, re-encodes to the input; (2) every byte-sequence length 0..=1200 (thorough 9000) and the lengths around every multiple of 1024 up to 128 KiB encode to the reference text and decode back; (3) proptest over every FromStr/Display/serde triple of paseto-core at every back end (tokens, key texts, typed keys, ids, PIE, PBKW, sealed keys): canonical strings with 0-3 edits (substitute / insert / delete / append suffix / duplicate segment / swap header / truncate over alphabet, padding, standard-alphabet, whitespace, multi-byte characters) and arbitrary strings: accept iff the strict grammar accepts (exact header, canonical segments, no extra segment; ids exactly 33 bytes), accepted strings re-serialise identically (tokens modulo one trailing '.'), serde serialises to exactly the Display string and deserialises exactly the strings FromStr accepts; (4) typed public keys in edge-case byte encodings (non-canonical Ed25519 y, sign-bit variants, small order, every SEC1 tag): accepted strings print as given and no two of them alike. Non-trivial iff accepted, or one edit away from a canonical string",
+        rule: "(1) exhaustive: every ASCII string of length <= 3 and every length-4 string over the 64-symbol alphabet plus 10 (quick) / 16 (thorough) hostile symbols ('=', '+', '/', '.', whitespace, multi-byte UTF-8, neighbours of the alphabet ranges), as the final base64 block after 0, 1 and 2 full blocks, decoded through KeyText: accept iff the strict reference decoder accepts (unpadded URL-safe alphabet, length != 1 mod 4, canonical trailing bits), same bytes, re-encodes to the input; (2) every byte-sequence length 0..=1200 (thorough 9000) and the lengths around every multiple of 1024 up to 128 KiB encode to the reference text and decode back; (3) proptest over every FromStr/Display/serde triple of paseto-core at every back end (tokens, key texts, typed keys, ids, PIE, PBKW, sealed keys): canonical strings with 0-3 edits (substitute / insert / delete / append suffix / duplicate segment / swap header / truncate over alphabet, padding, standard-alphabet, whitespace, multi-byte characters) and arbitrary strings: accept iff the strict grammar accepts (exact header, canonical segments, no extra segment; ids exactly 33 bytes), accepted strings re-serialise identically (tokens modulo one trailing '.'), serde serialises to exactly the Display string and deserialises exactly the strings FromStr accepts, whichever way the deserialiser hands the string over (borrowed, escaped / transient, owned from a Value, streamed from a reader); (4) typed public keys in edge-case byte encodings (non-canonical Ed25519 y, sign-bit variants, small order, every SEC1 tag): accepted strings print as given and no two of them alike. Non-trivial iff accepted, or one edit away from a canonical string",
         assumptions: vec!["v1 typed asymmetric keys may be given as PEM inside the base64 body and canonicalise to DER (excluded from the re-serialise-identically clause only)"],
         subs,
     }
